@@ -97,11 +97,16 @@ def check_C01(ctx):
     ts = wire_props(ctx, ("full",), ("W1", "W2", "W3", "W4", "W5", "PROB"), 56)
     rep.rule("W-REFUSE", "a reader path that panics depending on a value it read: the writer writes constants under a selector on the value at that position (the refused values are a declared exclusion; today: exhausted inclusive ranges)")
     nref = sum(rules_wire.check_refusals(t, "full", rep) for t in ts)
-    rep.floor("value-dependent reader refusals examined", nref, 1)
+    rep.count("value_dependent_reader_refusals_examined", nref)      # no floor: a reader without such a refusal has nothing to justify
     rep.rule("ALIGN", "the writer's align and the stream reader's align move by the same amount pad_align_to(position, unit(T)) (the alignment point is an atom of the wire terms; its two implementations are compared here)")
     align_pair(ctx, ("default WriteWithNames", "ReaderWithPos"))
+    rep.rule("STR-BOUNDARY", "serialization is total over type names: byte-offset string operations of std in ser/ (truncate, split_at, slicing, ...) take their offset from a char-boundary-producing operation")
+    rules_err.rule_str_offsets(ctx.universe("default", CORPUS), rep, ("epserde/src/ser/mod.rs", "epserde/src/ser/helpers.rs", "epserde/src/ser/write.rs"))
+    rep.rule("WRITE-FWD", "the writer primitive `write` hands every value to its own writer exactly once (no shortcut for a class of types), and write_bytes emits exactly the slice it is given: the wire terms are what reaches the stream")
+    rep.floor("default write paths", rules_align.rule_write_delegates(ctx.universe("default", CORPUS), rep), 1)
+    rep.floor("default write_bytes paths", rules_align.rule_write_bytes_plain(ctx.universe("default", CORPUS), rep), 1)
     rep.rule("ERR-WHO", "full-copy readers and helpers construct no error of their own except InvalidTag (for a tag no variant writes)")
-    nr = rules_err.rule_reader_refusals(ctx.universe("default", CORPUS), rep, "full")
+    nr = rules_err.rule_reader_refusals(ctx.universe("default", CORPUS), rep, "full", relabel_ok=True)
     rep.floor("full-copy reader functions scanned", nr, 80)
     if ctx.tier == "thorough":
         generated_corpus(ctx, rep, ("W1", "W2", "W3", "W4", "W5", "PROB"), modes=("full",))
@@ -117,7 +122,7 @@ def check_C02(ctx):
     ts = wire_props(ctx, ("eps",), ("W1", "W2", "W3", "W4", "PROB"), 56)
     rep.rule("W-REFUSE", "a reader path that panics depending on a value it read: the writer writes constants under a selector on the value at that position")
     nref = sum(rules_wire.check_refusals(t, "eps", rep) for t in ts)
-    rep.floor("value-dependent reader refusals examined", nref, 1)
+    rep.count("value_dependent_reader_refusals_examined", nref)      # no floor: a reader without such a refusal has nothing to justify
     rep.rule("ALIGN", "the writer's align and the slice reader's align move by the same amount pad_align_to(position, unit(T))")
     align_pair(ctx, ("default WriteWithNames", "SliceWithPos"))
     rep.rule("M1", "every alignment unit is a power of two >= the native alignment: the eps reader pads with the mask form of pad_align_to and tests `address % unit`, which agree with the writer's offsets only for power-of-two units")
@@ -126,8 +131,11 @@ def check_C02(ctx):
         rules_align.rule_M1(uu, rep, cname)
     except ExportError as ex:
         rep.add("M1", "universe", "the universe of closed zero-copy types no longer compiles: " + str(ex)[-300:])
+    rep.rule("WRITE-FWD", "the writer primitive `write` hands every value to its own writer exactly once (no shortcut for a class of types), and write_bytes emits exactly the slice it is given")
+    rep.floor("default write paths", rules_align.rule_write_delegates(ctx.universe("default", CORPUS), rep), 1)
+    rep.floor("default write_bytes paths", rules_align.rule_write_bytes_plain(ctx.universe("default", CORPUS), rep), 1)
     rep.rule("ERR-WHO", "eps readers and helpers construct no error of their own except InvalidTag (for a tag no variant writes)")
-    nr = rules_err.rule_reader_refusals(ctx.universe("default", CORPUS), rep, "eps")
+    nr = rules_err.rule_reader_refusals(ctx.universe("default", CORPUS), rep, "eps", relabel_ok=True)
     rep.floor("eps reader functions scanned", nr, 80)
     if ctx.tier == "thorough":
         generated_corpus(ctx, rep, ("W1", "W2", "W3", "W4", "PROB"), modes=("eps",))
@@ -150,7 +158,9 @@ def check_C15(ctx):
     rep.rule("ERR-WHO", "the InvalidTag built by a reader reaches the caller: the entry points deserialize_full / deserialize_eps construct no error of their own (they do not rewrite the reader's error), and readers construct none but InvalidTag")
     uu = ctx.universe("default", CORPUS)
     for md in ("full", "eps"):
-        rules_err.rule_reader_refusals(uu, rep, md)
+        rules_err.rule_reader_refusals(uu, rep, md, relabel_ok="primitive", tags_only=True)
+    rep.rule("WRITE-FWD", "the tag a variant's writer emits reaches the stream: the writer primitive `write` hands every value to its own writer exactly once, whatever its type (a zero-sized single-variant enum still owns a tag)")
+    rep.floor("default write paths", rules_align.rule_write_delegates(uu, rep), 1)
     if ctx.tier == "thorough":
         r = generated_corpus(ctx, rep, ("W3",))
         if r:
@@ -260,6 +270,9 @@ def check_C05(ctx):
         msg = "\n".join(l for l in str(ex).splitlines() if l.startswith("error"))[:600]
         rep.add("COMPILE", "wcorpus", "the corpus of derived definitions does not compile with the working-tree derive macro: " + msg)
         return "corpus failed to compile"
+    # premise of "all instantiations": the built-in impls a derived body delegates to agree with their own writers
+    rep.rule("W1 (built-in)", "the built-in impls that instantiate the parameters and make up the fields agree with their writers in both modes (the inductive premise of the derived bodies' agreement)")
+    wire_props(ctx, ("full", "eps"), ("W1", "PROB"), 56, only_crates=("epserde",))
     u = ctx.universe("default", CORPUS)
     # derived type information: the alignment unit (MaxSizeOf) and the IS_ZERO_COPY conjunction are macro output too
     rep.rule("M2", "derived max_size_of = max over align_of::<Self>() and the unit of every field")
@@ -532,6 +545,9 @@ def check_C07(ctx):
     rep.floor("derived zero-copy units checked", nd, 15)
     rules_align.rule_align_impls(u, rep)
     rules_align.rule_pos_accounting(u, rep)
+    rep.rule("WRITE-BYTES", "padding is emitted only at alignment points: the writer primitive write_bytes emits exactly the slice it is given")
+    rep.floor("default write_bytes paths", rules_align.rule_write_bytes_plain(u, rep), 1)
+    rep.floor("default write paths", rules_align.rule_write_delegates(u, rep), 1)
     if ctx.tier == "thorough":
         r = generated_corpus(ctx, rep, ("W4",))
         if r:
@@ -554,6 +570,8 @@ def check_C16(ctx):
     u, w, ts, exp = ctx.triples("default", CORPUS)
     recs = rules_hash.collect(u, rep)
     rules_hash.rule_H4(u, recs, rep)
+    rep.rule("WRITE-BYTES", "the writer primitive write_bytes emits exactly the slice it is given: the per-item writes of SerIter then add up to the single block write of Vec<T>")
+    rep.floor("default write_bytes paths", rules_align.rule_write_bytes_plain(u, rep), 1)
     for t in ts:
         if t.crate == "epserde" and t.des_impl is None:
             rules_wire.check_triple(t, exp, rep, modes=(), want=("W5-view", "PROB"))
@@ -760,7 +778,8 @@ def check_C03(ctx):
     rep.rule("RAW-CARVE", "no eps reader builds slices or pointers from the input buffer by hand (from_raw_parts / pointer arithmetic on backend.data)")
     rep.rule("W1 / W4", "the block has the written length (count linked to the length prefix) and is preceded by the alignment point of its unit")
     rep.rule("ALIGN-GUARD", "the alignment point of the slice-backed reader checks the absolute address")
-    ts = wire_props(ctx, ("eps",), ("W1", "W4", "PROB"), 56, w4_sides=("eps",), prob_sides=("eps",))
+    rep.rule("W5-view", "a write-only view (slice, SerIter) writes the stream of the SerType it is read back as, alignment points included: the eps reader of that type then finds every borrowed block where the view wrote it")
+    ts = wire_props(ctx, ("eps",), ("W1", "W4", "PROB", "W5-view"), 56, w4_sides=("eps",), prob_sides=("eps",))
     u = ctx.universe("default", CORPUS)
     n = rules_eps.rule_eps_borrow(u, ts, rep)
     rep.floor("zero-copy eps paths analysed", n, 20)
@@ -1006,6 +1025,9 @@ def check_C14(ctx):
     rep.floor("set_len sites analysed", k, 1)
     rep.rule("ALIGN", "the stream reader's align reads its padding from the backend (through read_exact) when it is called: a reader failure inside the padding is reported, whatever follows")
     align_pair(ctx, ("ReaderWithPos",))
+    rep.rule("ERR-WHO", "the reader's failure reaches the caller as the read error it was converted to: full-copy readers, their helpers and deserialize_full construct no error of their own except InvalidTag (none relabels a failed read)")
+    nw = rules_err.rule_reader_refusals(u, rep, "full")
+    rep.floor("full-copy readers and helpers examined for constructed errors", nw, 40)
     rep.rule("DOUBLE-CLEANUP", "a reader that drops a written prefix by hand holds no guard value whose Drop impl releases the prefix as well")
     kd = rules_loader.rule_double_cleanup(u, rep, DESER_SCOPE + ("epserde/src/deser/mod.rs",))
     rep.floor("functions with manual prefix cleanup", kd, 2)
